@@ -78,7 +78,7 @@ func runC15(c *Ctx) {
 	{
 		n, bad := 0, 0
 		for _, f := range c.Funcs {
-			if f.Pkg.Pkg.Path() != modPkg+"jwsutil" {
+			if pkgPathOf(f) != modPkg+"jwsutil" {
 				continue
 			}
 			forEachInstr(f, func(in ssa.Instruction) {
@@ -815,7 +815,10 @@ func (c *Ctx) signerVerifierTables(rule string) bool {
 		c.Check(rule, "signer:width=ceil(BitSize/8)", okW == 2 && inc, sign.Pos(), fmt.Sprintf("r and s are padded to ⌈BitSize/8⌉ of the signing key's curve (%d padded values)", okW))
 		// hash of the message with the curve's hash
 		okH := false
-		for _, cl := range findCalls(sign, func(cl *ssa.Call) bool { g := cl.Call.StaticCallee(); return g != nil && g.String() == "crypto/ecdsa.Sign" }) {
+		for _, cl := range findCalls(sign, func(cl *ssa.Call) bool {
+			g := cl.Call.StaticCallee()
+			return g != nil && g.String() == "crypto/ecdsa.Sign"
+		}) {
 			if strings.Contains(c.Path(cl.Call.Args[2], nil), "getHasher($0.privateKey.PublicKey.Curve)") {
 				okH = true
 			}
